@@ -283,7 +283,7 @@ def cmdStr : Cmd → String
   | .versionCheck t v => s!"vc:{t}:{dvalStr v}"
   | .ksToNv a c => s!"ksto:{a}:{c}"
   | .ksFromNv a c => s!"ksfrom:{a}:{c}"
-  | .loadCrypto k a st en key ctr inp => s!"crypto:{k}:{a}:{st}:{en}:{key.toLower}:{ctr.toLower}:{inp.toLower}"
+  | .loadCrypto k a st en key ctr inp sw => s!"crypto:{k}:{a}:{st}:{en}:{key.toLower}:{ctr.toLower}:{inp.toLower}:{if sw then 1 else 0}"
 where hexs' (b : List UInt8) : String := if b.isEmpty then "-" else toHex b
 
 /-! ### program runner (blocks are parsed with the sources known at that point, like the lexer) -/
@@ -352,6 +352,7 @@ partial def runWire (env : Env) (cfg : Config) (specAcc : List String) : List St
         let spec := ss.map (fun s => match Spec.cmdOf env cfg.keyblobs s with
           | some c =>
             let bad := !(Spec.isPlainBlobLoad env s) && !(Spec.isProgBlobLeadingZeros env s) &&
+              !(Spec.isCallOrReset s) && !(Spec.isSwappedEncrypt env cfg.keyblobs s) &&
               (match elabStmt env cfg.keyblobs s with | .ok c' => c' != c | .error _ => true)
             (if bad then "!" else "") ++ cmdStr c
           | none => "?")
@@ -407,12 +408,14 @@ def step : List String → String
     | some (env, ts) =>
       match runWire env {} [] ts with
       | none => "bad-op"
-      | some (.error _, _) => "E # E # -"
+      | some (.error _, _) => "E # E # - # -"
       | some (.ok (env', cfg), spec) =>
         let cmds := match cmdsOfConfig env' cfg with
           | .ok secs => "|".intercalate (secs.map (fun cs => ";".intercalate (cs.map cmdStr)))
           | .error _ => "E"
-        configStr env' cfg ++ " # " ++ cmds ++ " # " ++ "|".intercalate spec
+        let uids := ",".intercalate ((sectionUids cfg).map toString) ++ ";" ++
+          (match Spec.sectionUids cfg with | some l => ",".intercalate (l.map toString) | none => "?")
+        configStr env' cfg ++ " # " ++ cmds ++ " # " ++ "|".intercalate spec ++ " # " ++ uids
   | _ => "bad-op"
 
 def main : IO Unit := Driver.loop step
